@@ -114,3 +114,21 @@ Definition parse_sql_statements (content : str) : list str := finish (split_run 
 (** the scanner ended outside every string literal with no pending escape *)
 Definition ends_clean (content : str) : bool :=
   negb (s_in (split_run content)) && negb (s_esc (split_run content)).
+
+(** * Vocabulary of the theorems about string literals (used by Lex/SplitterLaws.v and
+    Codec/SqlDumpSpec.v)
+
+    the splitter's view of the body of a ['...'] literal: [e] = "the previous character was an
+    unescaped backslash".  A quote of the value (written doubled) or the closing quote must never
+    be met in that state. *)
+Fixpoint esc_scan (e : bool) (s : str) : bool :=
+  match s with
+  | [] => negb e
+  | c :: r =>
+      if e then negb (c =? 39) && esc_scan false r
+      else if c =? 92 then esc_scan true r
+      else esc_scan false r
+  end.
+(** every run of backslashes that is followed by a quote or ends the value has even length *)
+Definition esc_safe (s : str) : bool := esc_scan false s.
+Definition has_nl (s : str) : bool := existsb (Z.eqb 10) s.
